@@ -160,17 +160,30 @@ def isAligned (m o : Mesh) (tol : Rat := 1/1000000000000) : Bool :=
   allLt m.ndim (fun a => !misalignedAx (m.region.lo a - o.region.lo a) (m.cellAt a) tol) &&
   allLt m.ndim (fun a => !misalignedAx (m.region.hi a - o.region.hi a) (m.cellAt a) tol)
 
-/-- one candidate of the `subregions` setter -/
+/-- the three tests of the `subregions` setter on a region AS GIVEN: inside the mesh region, whole
+cells (`Mesh(region=…, cell=mesh.cell)` exists), aligned -/
 def subOk (m : Mesh) (s : Region) : Bool :=
   m.region.containsReg s &&
   (match Mesh.mkCell? s m.cell with
    | .ok sm => isAligned m sm
    | .error _ => false)
 
+/-- the Region the setter stores for a candidate: its corners, the mesh region's names, units and
+tolerance factor -/
+def stampFor (r c : Region) : Region :=
+  { pmin := c.pmin, pmax := c.pmax, dims := r.dims, units := r.units, tol := r.tol }
+
+/-- one candidate of the `subregions` setter (repo fix 5591fed0, finding D132): a candidate of the
+mesh's dimension is first rebuilt with the mesh region's names, units and tolerance factor — what
+is going to be stored — and the three tests are made on THAT copy (the candidate's own tolerance
+factor has no say); a candidate of another dimension is tested as it is (and fails the inside test) -/
+def candOk (m : Mesh) (s : Region) : Bool :=
+  subOk m (if s.ndim = m.ndim then stampFor m.region s else s)
+
 /-- `Mesh.subregions = …` : all candidates are checked, then re-created with the mesh's
 dims, units and tolerance; on failure the previous subregions are kept. -/
 def setSubs (m : Mesh) (subs : List (String × Region)) : M Mesh :=
-  if subs.all (fun p => subOk m p.2) then
+  if subs.all (fun p => candOk m p.2) then
     .ok { m with subs := subs.map fun p =>
       (p.1, { pmin := p.2.pmin, pmax := p.2.pmax, dims := m.region.dims, units := m.region.units,
               tol := m.region.tol }) }
